@@ -75,7 +75,8 @@ impl Ctx {
             ScriptBH {
                 mul: self.rng.next() | 1,
                 add: self.rng.next(),
-                sh: self.rng.range(17, 40) as u32,
+                // one time in three `hash_one` is overridden (a non-zero word above the shift bits)
+                sh: self.rng.range(17, 40) as u32 | if self.rng.chance(1, 3) { (self.rng.range(1, 0xffff) as u32) << 8 } else { 0 },
                 seed: self.rng.next(),
             }
         }
